@@ -3,6 +3,7 @@
 package explore
 
 import (
+	"context"
 	"time"
 
 	"github.com/sirupsen/logrus"
@@ -14,4 +15,16 @@ func (e *Explore) VerifSetProbe(interval time.Duration,
 	f func(log logrus.FieldLogger, scrapeInfo *scrape.JobInfo, url string) (*scrape.StatisticsSeriesResult, error)) {
 	e.retryInterval = interval
 	e.explore = f
+}
+
+// VerifProbeOnce runs one probe of the target synchronously with whatever probe function is installed
+// (the real one by default) (overlay only).
+func (e *Explore) VerifProbeOnce(hash uint64) error {
+	e.targetsLock.Lock()
+	t := e.targets[hash]
+	e.targetsLock.Unlock()
+	if t == nil {
+		return nil
+	}
+	return e.exploreOnce(context.Background(), t)
 }
